@@ -19,9 +19,11 @@ Print Assumptions C17_same_outcomes.
    vs ListReader on the frame; BoundedReader over any related readers *)
 Theorem C17_buffer_reader : rops_rel true bufr_rel bufr_ops lr_ops.
 Proof. exact bufr_refines. Qed.
+Print Assumptions C17_buffer_reader.
 Theorem C17_bounded_reader : forall r0 sz, sz < two64 ->
   rops_rel true (frame_rel r0 sz) (bounded_rops lr_ops) lr_ops.
 Proof. exact lr_bounded_rel. Qed.
+Print Assumptions C17_bounded_reader.
 Theorem C17_bounded_over_related : forall R1 R2 (rho : R1 -> R2 -> Prop) o1 o2,
   rops_rel true rho o1 o2 -> rops_rel true (brel rho) (bounded_rops o1) (bounded_rops o2).
 Proof. intros R1 R2 rho o1 o2. apply bounded_rops_rel1. Qed.
@@ -38,10 +40,12 @@ Print Assumptions C17_ensure_exact.
    would exceed their capacity, Prepare is exact for all of them *)
 Theorem C17_buffer_writer_appends : forall checked, appender (bufw_ops checked) bw_out bw_can.
 Proof. exact bufw_appender. Qed.
+Print Assumptions C17_buffer_writer_appends.
 Theorem C17_checked_writer_exact : forall (w : bufw) bs, bw_idx w <= bw_cap w -> bw_cap w < two64 ->
   w_writen (bufw_ops true) bs w =
   if nlen bs <=? bw_cap w - bw_idx w then Ok tt (bw_put w bs) else Err EWriteLimit w.
 Proof. exact bufw_checked_exact. Qed.
+Print Assumptions C17_checked_writer_exact.
 Theorem C17_prepare_exact : forall checked (w : bufw) n, bw_idx w <= bw_cap w -> bw_cap w < two64 ->
   w_prepare (bufw_ops checked) n w = if n <=? bw_cap w - bw_idx w then Ok tt w else Err EWriteLimit w.
 Proof. exact bufw_prepare_exact. Qed.
